@@ -27,8 +27,14 @@ Definition iface_eqb (a b : iface) : bool :=
   | _, _ => false
   end.
 
+Definition kind_eqb_full (a b : kind) : bool :=
+  match a, b with
+  | KGenIface l1, KGenIface l2 => list_eqb Nat.eqb l1 l2
+  | _, _ => kind_eqb a b
+  end.
+
 Definition sym_eqb (a b : sym) : bool :=
-  String.eqb (s_name a) (s_name b) && kind_eqb (s_kind a) (s_kind b)
+  String.eqb (s_name a) (s_name b) && kind_eqb_full (s_kind a) (s_kind b)
   && Bool.eqb (s_wild a) (s_wild b) && iface_eqb (s_iface a) (s_iface b).
 
 Definition entry_eqb (a b : string * sid) : bool :=
